@@ -858,7 +858,7 @@ class Stubs:
                     return self.x_regex_findall(ex, [pat] + list(args), kwargs)
             return self.unknown_call(ex, 'method %s on opaque' % name, [recv] + [ex.to_val(a) for a in args])
         if ex.branch(L.is_Obj(recv), 'm-obj'):
-            raise Unsupported('method %s on object of unknown class' % name)
+            return self.unknown_call(ex, 'method %s of an object of unknown class' % name, [recv] + [ex.to_val(a) for a in args])
         if ex.branch(L.is_Dec(recv), 'm-dec'):
             return self.unmodelled_method(ex, recv, 'Decimal', name, args)
         ex.raise_('AttributeError', 'no attribute %s' % name)
@@ -1107,7 +1107,11 @@ class Stubs:
     def str_upper(self, ex, recv, args, kwargs):
         return self._str_pure(ex, recv, args, 'upper')
 
-    def str_strip(self, ex, recv, args, kwargs):
+    def str_strip(self, ex, recv, args, kwargs, which='strip'):
+        if not args:
+            sid = L.UF('str_' + which, I, I)(Val.s(recv))
+            ex.assume(z3.And(L.slen(sid) >= 0, L.slen(sid) <= L.slen(Val.s(recv))))
+            return L.StrV(sid)
         s = ex.fresh_str('stripped')
         ex.assume(L.slen(Val.s(s)) <= L.slen(Val.s(recv)))
         for a in args:
@@ -1116,8 +1120,11 @@ class Stubs:
                 ex.raise_('TypeError', 'strip arg must be None or str')
         return s
 
-    str_rstrip = str_strip
-    str_lstrip = str_strip
+    def str_rstrip(self, ex, recv, args, kwargs):
+        return self.str_strip(ex, recv, args, kwargs, 'rstrip')
+
+    def str_lstrip(self, ex, recv, args, kwargs):
+        return self.str_strip(ex, recv, args, kwargs, 'lstrip')
 
     def str_index(self, ex, recv, args, kwargs):
         self._need_str(ex, args[0], 'index')
